@@ -206,7 +206,9 @@ DumpTree(L, i) ==
   IN CASE nd.ty = "c" -> C(nd.val)
        [] nd.ty = "v" -> V(nd.val)
        [] nd.ty = "if" -> If(DumpTree(L, kidsIdx[1]), DumpTree(L, kidsIdx[2]), DumpTree(L, kidsIdx[4]))
-       [] OTHER -> O(nd.val, [k \in 1..Len(kidsIdx) |-> DumpTree(L, kidsIdx[k])])
+       [] OTHER -> LET RECURSIVE sub(_, _)
+                       sub(k, acc) == IF k > Len(kidsIdx) THEN acc ELSE sub(k + 1, Append(acc, DumpTree(L, kidsIdx[k])))
+                   IN O(nd.val, sub(1, <<>>))
 RootIdx(L) == CHOOSE i \in 1..Len(L.nodes) :
                 L.nodes[i].par = 0 /\ \A j \in 1..Len(L.nodes) : L.nodes[j].par = 0 => j <= i
 DumpOf(L) == DumpTree(L, RootIdx(L))
